@@ -309,6 +309,7 @@ func (fc *FnCtx) execBlock(b *ssa.BasicBlock, st *State) []edgeOut {
 		case *ssa.Defer:
 			fc.deferAt[x] = st.guard
 		case *ssa.RunDefers:
+			fc.preDefer = st.clone()
 			fc.runDefers(st)
 		case *ssa.Go:
 			fc.goStmt(st, x)
@@ -338,7 +339,12 @@ func (fc *FnCtx) execBlock(b *ssa.BasicBlock, st *State) []edgeOut {
 			for i, r := range x.Results {
 				rs = append(rs, fc.coerce(fc.val(r), fc.fn.Signature.Results().At(i).Type()))
 			}
-			fc.rets = append(fc.rets, retInfo{st: st, results: rs, ord: fc.retOrd[x], pos: x.Pos(), blk: b, instr: x})
+			pre := st
+			if fc.preDefer != nil {
+				pre = fc.preDefer
+				fc.preDefer = nil
+			}
+			fc.rets = append(fc.rets, retInfo{st: st, results: rs, ord: fc.retOrd[x], pos: x.Pos(), blk: b, instr: x, preSt: pre})
 			return nil
 		case *ssa.Panic:
 			fc.safety(st, "panic", x.Pos(), fc.srcOf(x.Pos(), "call"), "false")
